@@ -11,7 +11,7 @@ import (
 // not valid JSON (raw invalid UTF-8, leading zeros, ...) at a chosen place of an otherwise valid document.
 
 type jnode struct {
-	Kind byte // 'o' object, 'a' array, 'r' raw scalar text (number, string with quotes, true/false/null, or garbage)
+	Kind byte     // 'o' object, 'a' array, 'r' raw scalar text (number, string with quotes, true/false/null, or garbage)
 	Keys []string // raw key text WITH quotes (so keys can be corrupted too)
 	Vals []*jnode // object values / array elements
 	Raw  string
